@@ -24,6 +24,8 @@ def one(sd: str, tier: str):
         r = subprocess.run(["/venv/bin/python", "-m", "sa", prop, "--tier", tier], cwd="/verif", env=env,
                            capture_output=True, text=True)
         first = next((l.strip()[:200] for l in r.stdout.splitlines() if l.startswith(("  finding", "ANALYSIS-ERROR"))), "")
+        if meta.get("kind") == "refactor":
+            return sid, prop, {0: "silent", 1: "FALSE-ALARM", 2: "analysis-error"}.get(r.returncode, f"rc={r.returncode}"), first
         return sid, prop, {0: "missed", 1: "detected", 2: "analysis-error"}.get(r.returncode, f"rc={r.returncode}"), first
     finally:
         shutil.rmtree(d, ignore_errors=True)
@@ -37,15 +39,17 @@ def main():
     bad = 0
     with cf.ThreadPoolExecutor(jobs) as ex:
         for sid, prop, verdict, first in ex.map(lambda s: one(s, tier), seeds):
-            if verdict != "detected":
+            if verdict not in ("detected", "silent"):
                 bad += 1
                 print(f"{sid}: {verdict} {first}")
             mp = f"/verif/seeded/{sid}/meta.json"
             m = json.load(open(mp))
             m["detected_by"] = [prop] if verdict == "detected" else []
             m["last_verdict"] = verdict
+            if verdict == "detected" and first.startswith("finding:"):
+                m["caught_by_rule"] = first.split()[1] + " " + first.split()[2]
             json.dump(m, open(mp, "w"), indent=1)
-    print(f"{len(seeds)} seeds, {bad} not detected")
+    print(f"{len(seeds)} seeds (breaking changes must be detected, refactors must stay silent), {bad} not as expected")
     return 1 if bad else 0
 
 
